@@ -153,7 +153,7 @@ class ScriptStreamer(object):
             self.decoder[opcode_lookup.get(o)] = make_variable_handler(
                 dec_f, self.sized_encoder.keys(), min_size, non_minimal_data_handler
             )
-            min_size = max_size + 1
+            min_size = max_size
 
         # deal with sized data opcodes
 
